@@ -940,6 +940,17 @@ def execute(plan, tape):
                                 raise Violation("C04:normalize:structure",
                                                 "%s: the copy of %s : %s has type %s" %
                                                 (where, src_, canon_tkey(src_.symbol_type()), canon_tkey(cp_.symbol_type())))
+                    for first_user in ((o["client"] % 2 == 0), ):
+                        tm_ = env.type_manager
+                        reqs = [("user", lambda: tm_.ArrayType(T.REAL, S)), ("builtin", lambda: tm_.ArrayType(T.REAL, builtin))]
+                        if not first_user:
+                            reqs.reverse()
+                        got_ = {lab: mk() for lab, mk in reqs}
+                        if got_["user"] == got_["builtin"] or canon_tkey(got_["user"].elem_type) != canon_tkey(S) \
+                                or canon_tkey(got_["builtin"].elem_type) != canon_tkey(builtin):
+                            raise Violation("C04:sort-identity",
+                                            "%s: array types over the user sort %s and over the built-in sort are confused (%s / %s)" %
+                                            (where, nm, canon_tkey(got_["user"]), canon_tkey(got_["builtin"])))
                     ft1 = T.FunctionType(T.BOOL, [S])
                     ft2 = T.FunctionType(T.BOOL, [builtin])
                     if ft1 == ft2:
